@@ -51,7 +51,11 @@ def run_semantic(ctx, module, level, rule, flags_list, relation, origins, extra,
             for m in r["mismatches"][:20]:
                 ctx.mismatches.append({"op": m.get("op"), "program": m.get("program"), "impl": str(m.get("impl"))[:500],
                                        "model": str(m.get("model"))[:500]})
-            extra += [m["program"] for m in r["mismatches"][:40] if isinstance(m.get("program"), str)]
+            # programs on which model and code disagree are the first place to look for a failing input: they get the
+            # multiplicity of the hand-written programs
+            sus = [m["program"] for m in r["mismatches"][:12] if isinstance(m.get("program"), str)]
+            extra[0:0] = sus
+            n_hand += len(sus)
             extra += list(r.get("extra_programs", []))[:40]
             ctx.cov["samples"].append({"correspondence": name, "evaluations": r["evaluations"], "nontrivial": r["nontrivial"]})
     for g in generators:
